@@ -721,6 +721,26 @@ func c08NilAndFalsyElements(t *engine.T, mk func() *plush.Context) {
 		cases = append(cases, tc{fmt.Sprintf("Iterator yielding falsy values #%d", fi), `<%= for (k, v) in itf { %><%= k %>:<%= v %>,<% } %>`, want.String(), func(c *plush.Context) { c.Set("itf", &c08ListIter{items: seq}) }})
 		cases = append(cases, tc{fmt.Sprintf("slice with falsy values #%d", fi), `<%= for (k, v) in itf { %><%= k %>:<%= v %>,<% } %>`, want.String(), func(c *plush.Context) { c.Set("itf", seq) }})
 	}
+	// keys and elements of named types reach the body as the Go values they are: their methods, their printed form
+	// (Stringer / HTMLer) and lookups by them in the same map work as outside the loop
+	typedBody := `<%= k.Up() %>=<%= v %>,`
+	cases = append(cases,
+		tc{"map keyed by a named string type with a method", `<%= for (k, v) in tm { %>` + typedBody + `<% } %>`, "EN=1,", func(c *plush.Context) { c.Set("tm", map[c08Lang]int{"en": 1}) }},
+		tc{"pointer to a map keyed by a named string type", `<%= for (k, v) in tm { %>` + typedBody + `<% } %>`, "EN=1,", func(c *plush.Context) { c.Set("tm", &map[c08Lang]int{"en": 1}) }},
+		tc{"map keyed by a named string type that is a Stringer", `<%= for (k, v) in tm { %><%= k %>=<%= v %>,<% } %>`, "lang(en)=1,", func(c *plush.Context) { c.Set("tm", map[c08LangS]int{"en": 1}) }},
+		tc{"map keyed by a named string type, lookup by the key", `<%= for (k, v) in tm { %><%= tm[k] %>,<% } %>`, "1,", func(c *plush.Context) { c.Set("tm", map[c08Lang]int{"en": 1}) }},
+		tc{"map keyed by a named string type, key handed to a typed helper", `<%= for (k, v) in tm { %><%= wantLang(k) %>,<% } %>`, "lang:en,", func(c *plush.Context) {
+			c.Set("tm", map[c08Lang]int{"en": 1})
+			c.Set("wantLang", func(l c08Lang) string { return "lang:" + string(l) })
+		}},
+		tc{"map keyed by a named int type with a method", `<%= for (k, v) in tm { %><%= k.Double() %>=<%= v %>,<% } %>`, "14=x,", func(c *plush.Context) { c.Set("tm", map[c08ID]string{7: "x"}) }},
+		tc{"map keyed by a struct", `<%= for (k, v) in tm { %><%= k.Name %>=<%= v %>,<% } %>`, "n=1,", func(c *plush.Context) { c.Set("tm", map[c08Key]int{{Name: "n"}: 1}) }},
+		tc{"map with values of a named string type", `<%= for (k, v) in tm { %><%= k %>=<%= v.Up() %>,<% } %>`, "a=EN,", func(c *plush.Context) { c.Set("tm", map[string]c08Lang{"a": "en"}) }},
+		tc{"slice of a named string type", `<%= for (i, v) in tm { %><%= i %>=<%= v.Up() %>,<% } %>`, "0=EN,1=FR,", func(c *plush.Context) { c.Set("tm", []c08Lang{"en", "fr"}) }},
+		tc{"array of a named int type", `<%= for (i, v) in tm { %><%= i %>=<%= v.Double() %>,<% } %>`, "0=2,1=4,", func(c *plush.Context) { c.Set("tm", [2]c08ID{1, 2}) }},
+		tc{"slice of pointers, pointer-receiver method", `<%= for (i, v) in tm { %><%= v.Hello() %>,<% } %>`, "", func(c *plush.Context) { c.Set("tm", []*Person{}) }},
+		tc{"Iterator yielding a named string type", `<%= for (i, v) in tm { %><%= i %>=<%= v.Up() %>,<% } %>`, "0=EN,", func(c *plush.Context) { c.Set("tm", &c08ListIter{items: []interface{}{c08Lang("en")}}) }},
+	)
 	for _, c := range cases {
 		c := c
 		t.Case("elements "+c.name+" "+q(c.src), true, func() (string, *engine.Fail) {
@@ -840,3 +860,17 @@ func c08HelperBlocks(t *engine.T, mk func() *plush.Context) {
 		}
 	}
 }
+
+type c08Lang string
+
+func (l c08Lang) Up() string { return strings.ToUpper(string(l)) }
+
+type c08LangS string
+
+func (l c08LangS) String() string { return "lang(" + string(l) + ")" }
+
+type c08ID int
+
+func (i c08ID) Double() int { return int(i) * 2 }
+
+type c08Key struct{ Name string }
